@@ -254,10 +254,13 @@ def random_case(draw):
                     how = draw(st.sampled_from(["fwd", "rev", "rot"]))
                     img = img if how == "fwd" else img[::-1] if how == "rev" else img[1:] + img[:1]
                     if min(tuple(img), tuple(img[::-1])) not in [min(tuple(x), tuple(x[::-1])) for x in s[kind + "s"]]:
-                        s[kind + "s"].append(img)
-                        s[kind + "_types"].append(s[kind + "_types"][0])
-                        if s["extra_%s_labels" % kind]:
-                            s["extra_%s_fields" % kind].append(list(s["extra_%s_fields" % kind][0]))
+                        # one existing term on those atoms, or two / three (a torsion written as several terms, the second
+                        # possibly listed backwards): the new term supersedes all of them
+                        for rep in range(draw(st.sampled_from([1, 1, 2, 3]))):
+                            s[kind + "s"].append(img if rep != 1 or draw(st.booleans()) else img[::-1])
+                            s[kind + "_types"].append(s[kind + "_types"][rep % len(s[kind + "_types"])])
+                            if s["extra_%s_labels" % kind]:
+                                s["extra_%s_fields" % kind].append(list(s["extra_%s_fields" % kind][0]))
     return {"self": s, "other": o, "map": mp, "mode": draw(st.sampled_from(["default", "explicit-offsets", "repeated", "repeated-same-map"]))}
 
 
